@@ -101,12 +101,17 @@ def _phase_job(job):
             predicted[c["pcs"]["w"]] = c
         want = crash.expected()
         ks = list(range(1, m + 1))
-        second = set(rnd.sample(ks, min(len(ks), 6 if tier == "quick" else 25)))
-        for k in ks:
+        second = set(rnd.sample(ks, min(len(ks), 6))) if tier == "quick" else set(ks)
+        # thorough: every kill point is visited several times: once with a plain recovery and with second kills at
+        # different operations of the recovery
+        visits = [(k, None) for k in ks] if tier == "quick" else [(k, r) for k in ks for r in range(4)]
+        for k, rep_no in visits:
             box = pre_box.copy()
             try:
                 how, _ = crash.run_in_child(box, crash.phase_fn(box, phase), kill_at=k)
                 case = dict(phase=label, kill_before_op=k, op=list(ops[k - 1]), nops=m)
+                if rep_no:
+                    case["visit"] = rep_no
                 out["cases"].append(case)
                 if how != "killed":
                     out["notes"].append("model_drift: %s op %d: child ended %s instead of being killed" % (label, k, how))
@@ -132,9 +137,9 @@ def _phase_job(job):
                                               dict(tag="silent_corruption", phase=phase, farmer=farmer)))
                     continue
                 # (c) the documented recovery reaches the exact results (optionally with a second kill inside it)
-                if k in second:
+                if (k in second and rep_no is None) or (rep_no is not None and rep_no > 0):
                     rb = box
-                    nrec = 40
+                    nrec = 60
                     j = rnd.randint(1, nrec)
                     how2, _ = crash.run_in_child(rb, lambda: crash.recover(rb), kill_at=j)
                     case = dict(case, second_kill_at=j, second=how2)
@@ -189,7 +194,7 @@ def run(rep):
             rep.note(n)
         progs[out["label"]] = out.get("program")
         for case in out["cases"]:
-            rep.add_case([case["phase"], case["kill_before_op"]], sample=case if len(rep.samples) < 3 else None)
+            rep.add_case([case["phase"], case["kill_before_op"], case.get("visit")], sample=case if len(rep.samples) < 3 else None)
         for case, prob, key in out["violations"]:
             rep.add_violation(case, prob, key=key)
     rep.extra["recorded_programs"] = progs
